@@ -29,7 +29,9 @@ def seeded_table():
         first = next((v["first"] for v in lat.values() if v["exit"] == 1), next((v["first"] for v in lat.values() if v["exit"] > 1), ""))
         first = re.sub(r"replay=\S*/replays/", "replay=…/", first)[:170]
         base = os.path.basename(d)
-        label = (base.split("-wt3-")[-1] + " (round 3)") if "-wt3-" in base else (base.split("-wt4-")[-1] + " (round 4)") if "-wt4-" in base else base.split("-wt-")[-1]
+        import re as _re
+        _m = _re.search(r"-wt(\d)-", base)
+        label = (base.split(_m.group(0))[-1] + f" (round {_m.group(1)})") if _m else base.split("-wt-")[-1]
         rows.append(f"| {label} | {title} | {exits} | `{first}` |")
     return "\n".join(rows)
 
